@@ -32,5 +32,6 @@ def _vocab(f):
 
 # vocabulary of every top-level function / method: used to recognise a function that was renamed AND restyled (engine/inline.py)
 out['*vocab'] = {k: _vocab(f) for k, f in sorted(m.funcs.items()) if f.parent is None and '@' not in k}
+out['*defaults'] = {k: len(f.node.args.defaults) for k, f in sorted(m.funcs.items()) if f.parent is None and '@' not in k}
 json.dump(out, open(DIGEST_FILE, 'w'), indent=0, sort_keys=True)
 print(len(out), 'digests written;', 'keys without a function (module-level or stale):', missing)
